@@ -119,18 +119,15 @@ var c17 = Register("C17", "C17.root", func(a c17Args) *Violation {
 		st.Class(name + "/perfect-power")
 	} else {
 		st.Class(name + "/inexact")
-		// midpoint proximity: |d - ((c +/- 1/2) u)^k| tiny relative: compare with bounds at m' = 5e19 - 1e14
-		m2 := new(big.Int).Sub(new(big.Int).Mul(big5, ref.Pow10(19)), ref.Pow10(14))
-		lo2 := new(big.Int).Sub(new(big.Int).Mul(c, ref.Pow10(20)), m2)
-		hi2 := new(big.Int).Add(new(big.Int).Mul(c, ref.Pow10(20)), m2)
-		if (lo2.Sign() > 0 && cmp(pw(lo2)) < 0) || cmp(pw(hi2)) > 0 {
-			st.Class(name + "/root-within-1e-6ulp-of-midpoint")
-			m3 := new(big.Int).Sub(new(big.Int).Mul(big5, ref.Pow10(19)), ref.Pow10(8))
-			lo3 := new(big.Int).Sub(new(big.Int).Mul(c, ref.Pow10(20)), m3)
-			hi3 := new(big.Int).Add(new(big.Int).Mul(c, ref.Pow10(20)), m3)
-			if (lo3.Sign() > 0 && cmp(pw(lo3)) < 0) || cmp(pw(hi3)) > 0 {
-				st.Class(name + "/root-within-1e-12ulp-of-midpoint")
+		// midpoint proximity: is |d| outside ((c -/+ (1/2 - 10^-j)) u)^k, i.e. the root within 10^-j ulp of a midpoint?
+		for _, j := range []int{6, 9, 12, 15} {
+			mj := new(big.Int).Sub(new(big.Int).Mul(big5, ref.Pow10(19)), ref.Pow10(20-j))
+			loj := new(big.Int).Sub(new(big.Int).Mul(c, ref.Pow10(20)), mj)
+			hij := new(big.Int).Add(new(big.Int).Mul(c, ref.Pow10(20)), mj)
+			if !((loj.Sign() > 0 && cmp(pw(loj)) < 0) || cmp(pw(hij)) > 0) {
+				break
 			}
+			st.Class(name + "/root-within-1e-" + itoa(j) + "ulp-of-midpoint")
 		}
 		r := ((n.Exp % k) + k) % k
 		st.Class(name + "/exp-mod-" + itoa(k) + "=" + itoa(r))
@@ -299,6 +296,165 @@ func TestC17_Sqrt(t *testing.T) {
 
 func TestC17_Cbrt(t *testing.T) {
 	runRapid(t, 60000, 3000000, func(t *rapid.T) {
+		if ir(t, 0, 4, "lattice") == 0 {
+			if v, ok := latticeCbrtArg(t); ok {
+				c17.Run(t, c17Args{V: v, Cube: true})
+				return
+			}
+		}
 		c17.Run(t, c17Args{V: genRootArg(t, true), Cube: true})
 	})
+}
+
+// latticeCbrtArg constructs an argument whose cube root lies about 1e-12 ulp from a rounding midpoint. With
+// h = 2w+1 (so that h/2 is the midpoint above a full-precision root coefficient w) it looks for h near a random
+// h0 with h^3 = c' (mod M), M = 8*10^m, |c'| small: then d = (h^3 - c')/M is an integer of at most 34/35 digits
+// and cbrt(d*10^m) = h/2 - c'/(6h^2) - ..., i.e. the root misses the midpoint by |c'|/(6h^2) units in the last
+// place. Writing h = h0 + 2t, h^3 = h0^3 + 6h0^2 t + O(h0 t^2); the t that makes the linear part small modulo M
+// is the closest vector, in the two-dimensional lattice spanned by (s, 6h0^2) and (0, M), to (0, -h0^3), found by
+// Lagrange-Gauss reduction and Babai rounding (s balances |t| against the residual so that the neglected
+// quadratic term is of the same size as the residual). Unlike the square root (henselSqrtArg) the modulus has
+// twice as many digits as h, so the congruence cannot be solved outright; the lattice gets within ~1e-12 ulp,
+// a random search only within ~1e-6.
+func latticeCbrtArg(t *rapid.T) (D, bool) {
+	w0 := fullCoef(t)
+	h0 := new(big.Int).Lsh(w0, 1)
+	h0.Add(h0, ref.One)
+	h0c := new(big.Int).Exp(h0, big.NewInt(3), nil)
+	// smallest m with h0^3 / (8*10^m) <= Cmax
+	m := 60
+	M := new(big.Int)
+	for {
+		M.Mul(big.NewInt(8), ref.Pow10(m))
+		if new(big.Int).Quo(h0c, M).Cmp(ref.Cmax) <= 0 {
+			break
+		}
+		m++
+	}
+	if ir(t, 0, 5, "shortArg") == 0 {
+		m += ir(t, 1, 3, "extra") // a shorter argument for the same root
+		M.Mul(big.NewInt(8), ref.Pow10(m))
+	}
+	a := new(big.Int).Mod(h0c, M)
+	b := new(big.Int).Mul(h0, h0)
+	b.Mul(b, big.NewInt(12)) // d(h^3)/dt for h = h0 + 2t is 6 h0^2 * 2... (h0+2t)^3 = h0^3 + 6 h0^2 t + 12 h0 t^2 + 8 t^3
+	b.Quo(b, ref.Two)
+	b.Mod(b, M)
+	// T ~ cbrt(M / (12 h0)), s = M / T^2
+	T := icbrt(new(big.Int).Quo(M, new(big.Int).Mul(big.NewInt(12), h0)))
+	if T.Sign() == 0 {
+		T.SetInt64(1)
+	}
+	s := new(big.Int).Quo(M, new(big.Int).Mul(T, T))
+	if s.Sign() == 0 {
+		s.SetInt64(1)
+	}
+	u := [2]*big.Int{new(big.Int).Set(s), new(big.Int).Set(b)}
+	v := [2]*big.Int{new(big.Int), new(big.Int).Set(M)}
+	dot := func(x, y [2]*big.Int) *big.Int {
+		r := new(big.Int).Mul(x[0], y[0])
+		return r.Add(r, new(big.Int).Mul(x[1], y[1]))
+	}
+	roundDiv := func(n, d *big.Int) *big.Int { // nearest integer to n/d, d > 0
+		twoN := new(big.Int).Lsh(n, 1)
+		twoN.Add(twoN, d)
+		q := new(big.Int)
+		mm := new(big.Int)
+		q.DivMod(twoN, new(big.Int).Lsh(d, 1), mm)
+		return q
+	}
+	for i := 0; i < 400; i++ {
+		if dot(u, u).Cmp(dot(v, v)) > 0 {
+			u, v = v, u
+		}
+		uu := dot(u, u)
+		if uu.Sign() == 0 {
+			return D{}, false
+		}
+		mu := roundDiv(dot(u, v), uu)
+		if mu.Sign() == 0 {
+			break
+		}
+		v[0] = new(big.Int).Sub(v[0], new(big.Int).Mul(mu, u[0]))
+		v[1] = new(big.Int).Sub(v[1], new(big.Int).Mul(mu, u[1]))
+	}
+	// Babai: p = alpha u + beta v for p = (0, -a)
+	det := new(big.Int).Sub(new(big.Int).Mul(u[0], v[1]), new(big.Int).Mul(u[1], v[0]))
+	if det.Sign() == 0 {
+		return D{}, false
+	}
+	p1 := new(big.Int).Neg(a)
+	an := new(big.Int).Neg(new(big.Int).Mul(p1, v[0])) // p0 v1 - p1 v0 with p0 = 0
+	bn := new(big.Int).Mul(u[0], p1)                    // u0 p1 - u1 p0
+	if det.Sign() < 0 {
+		det.Neg(det)
+		an.Neg(an)
+		bn.Neg(bn)
+	}
+	al := roundDiv(an, det)
+	be := roundDiv(bn, det)
+	al.Add(al, bi(int64(ir(t, -1, 1, "da"))))
+	be.Add(be, bi(int64(ir(t, -1, 1, "db"))))
+	l0 := new(big.Int).Add(new(big.Int).Mul(al, u[0]), new(big.Int).Mul(be, v[0]))
+	tt := new(big.Int).Quo(l0, s)
+	h := new(big.Int).Add(h0, new(big.Int).Lsh(tt, 1))
+	if h.Sign() <= 0 {
+		return D{}, false
+	}
+	hc := new(big.Int).Exp(h, big.NewInt(3), nil)
+	cp := new(big.Int).Mod(hc, M)
+	if new(big.Int).Lsh(cp, 1).Cmp(M) > 0 {
+		cp.Sub(cp, M)
+	}
+	d := new(big.Int).Sub(hc, cp)
+	d.Quo(d, M)
+	if d.Sign() <= 0 || d.Cmp(ref.Cmax) > 0 {
+		return D{}, false
+	}
+	qlo, qhi := (ref.Emin-m)/3+1, (ref.Emax-m)/3-1
+	q := ir(t, qlo, qhi, "q")
+	if ir(t, 0, 3, "qSmall") != 0 {
+		q = ir(t, -40, 10, "qs")
+	}
+	return DFin(genSign(t), d, m+3*q), true
+}
+
+// icbrt returns floor(cbrt(n)) for n >= 0.
+func icbrt(n *big.Int) *big.Int {
+	if n.Sign() <= 0 {
+		return new(big.Int)
+	}
+	x := new(big.Int).Lsh(ref.One, uint(n.BitLen()/3+1))
+	for {
+		// y = (2x + n/x^2) / 3
+		y := new(big.Int).Quo(n, new(big.Int).Mul(x, x))
+		y.Add(y, new(big.Int).Lsh(x, 1))
+		y.Quo(y, big.NewInt(3))
+		if y.Cmp(x) >= 0 {
+			return x
+		}
+		x = y
+	}
+}
+
+func TestC17_LatticeSelf(t *testing.T) {
+	// the constructor must deliver what it promises: a good share of its draws put the root within 1e-9 ulp of
+	// a midpoint (about 57 % do; a uniformly random argument does so with probability 2e-9)
+	st := S("C17", "root")
+	count := func() int64 {
+		st.mu.Lock()
+		defer st.mu.Unlock()
+		return st.Classes["Cbrt/root-within-1e-9ulp-of-midpoint"]
+	}
+	before := count()
+	made := 0
+	runRapid(t, 100, 100, func(t *rapid.T) {
+		if v, ok := latticeCbrtArg(t); ok {
+			made++
+			c17.Run(t, c17Args{V: v, Cube: true})
+		}
+	})
+	if hit := count() - before; made < 20 || hit*10 < int64(made)*3 {
+		t.Fatalf("lattice constructor: %d arguments made, only %d with a root within 1e-9 ulp of a midpoint", made, hit)
+	}
 }
